@@ -63,8 +63,8 @@ def skeleton : List (String × List String) := [
   ("check_degree_type", ["if not isinstance(inp, bool)", "  raise MagpylibBadUserInput"]),
   ("check_field_input", ["allowed = tuple('BHMJ')", "if not (isinstance(inp, str) and inp in allowed)", "  raise MagpylibBadUserInput"]),
   ("check_getBH_output_type", ["acceptable = ('ndarray', 'dataframe')", "if output not in acceptable", "  raise ValueError", "if output == 'dataframe'", "  try", "  except ImportError", "    raise ModuleNotFoundError", "return output"]),
-  ("check_format_input_anchor", ["if isinstance(inp, numbers.Number) and inp == 0", "  return np.array((0.0, 0.0, 0.0))", "return check_format_input_vector(inp, dims=(1, 2), shape_m1=3, sig_name='anchor', sig_type='`None` or `0` or array_like (list, tuple, ndarray) with shape (3,)', allow_None=True)"]),
-  ("check_format_input_angle", ["if isinstance(inp, numbers.Number)", "  return float(inp)", "return check_format_input_vector(inp, dims=(1,), shape_m1='any', sig_name='angle', sig_type='int, float or array_like (list, tuple, ndarray) with shape (n,)')"]),
+  ("check_format_input_anchor", ["if isinstance(inp, numbers.Number) and inp == 0", "  return np.array((0.0, 0.0, 0.0))", "inp = check_format_input_vector(...)", "if inp is not None and inp.size == 0", "  raise MagpylibBadUserInput", "return inp"]),
+  ("check_format_input_angle", ["if isinstance(inp, numbers.Number)", "  try", "    return float(inp)", "  except (TypeError, OverflowError)", "    raise MagpylibBadUserInput", "return check_format_input_vector(inp, dims=(1,), shape_m1='any', sig_name='angle', sig_type='int, float or array_like (list, tuple, ndarray) with shape (n,)')"]),
   ("check_format_input_axis", ["if isinstance(inp, str)", "  if inp == 'x'", "    return np.array((1, 0, 0))", "  if inp == 'y'", "    return np.array((0, 1, 0))", "  if inp == 'z'", "    return np.array((0, 0, 1))", "  raise MagpylibBadUserInput", "inp = check_format_input_vector(...)", "if np.all(inp == 0)", "  raise MagpylibBadUserInput", "return inp"]),
   ("check_format_input_orientation", ["if not isinstance(inp, (Rotation, type(None)))", "  raise MagpylibBadUserInput", "if inp is None", "  inpQ = np.array((0, 0, 0, 1))", "  inp = Rotation.from_quat(inpQ)", "else", "  inpQ = inp.as_quat()", "  if not np.all(np.isfinite(inpQ))", "    raise MagpylibBadUserInput", "if init_format", "  if inpQ.size == 0", "    raise MagpylibBadUserInput", "  return np.reshape(inpQ, (-1, 4))", "return (inp, inpQ)"]),
   ("Sensor.pixel", ["pixel = check_format_input_vector(...)", "if pixel is not None and pixel.size == 0", "  raise MagpylibBadUserInput", "self._pixel = pixel"]),
